@@ -204,6 +204,9 @@ func (w *World) GenesisBytes() ([]byte, error) { return w.buildGenesis() }
 
 func (w *World) InitChain(gen []byte) error {
 	cp := app.CustomGenesisConsensusParams().ToProto()
+	if RecordTranscripts && w.Transcript == nil { // C17: every engine's world records its raw ABCI history
+		w.Transcript = &Transcript{Cfg: w.Cfg}
+	}
 	if w.Transcript != nil {
 		w.Transcript.Genesis = gen
 	}
@@ -408,7 +411,9 @@ func (w *World) Ctx() sdk.Context {
 	if len(w.Vals) > 0 {
 		hdr.ProposerAddress = w.Vals[0].ConsAddr
 	}
-	return w.App.NewUncachedContext(false, hdr)
+	// cache-wrapped: nothing a harness query does through this context can leak into committed state
+	ctx, _ := w.App.NewUncachedContext(false, hdr).CacheContext()
+	return ctx
 }
 
 // Branch returns a cache-wrapped context over the committed state; writes are discarded.
@@ -518,6 +523,7 @@ func (w *World) RunBlock(txs [][]byte, dt time.Duration) (*abci.ResponseFinalize
 	w.LastResp = resp
 	if w.Transcript != nil {
 		w.Transcript.Blocks[len(w.Transcript.Blocks)-1].AppHash = resp.AppHash
+		w.Transcript.Blocks[len(w.Transcript.Blocks)-1].Resp = resp
 	}
 	return resp, nil
 }
@@ -535,6 +541,9 @@ func (w *World) guard(phase string, f func() error) (h *HaltInfo) {
 	return nil
 }
 
+// RecordTranscripts makes every World record its raw ABCI history (consulted in InitChain; C17).
+var RecordTranscripts bool
+
 // Transcript is the raw ABCI history of a run (for C17 replicas).
 type Transcript struct {
 	Cfg     Config            `json:"cfg"`
@@ -545,4 +554,5 @@ type Transcript struct {
 type TranscriptBlock struct {
 	Req     *abci.RequestFinalizeBlock `json:"req"`
 	AppHash []byte                     `json:"app_hash"`
+	Resp    *abci.ResponseFinalizeBlock `json:"-"` // reference results of the recording run (C17)
 }
